@@ -186,6 +186,69 @@ SArrayLite._pyvc_deepcopy = lambda self, rec: SArrayLite([rec(v) for v in self.v
 SArrayLite.__repr__ = lambda self: f"SArrayLite({self.vals})"
 
 
+class SRecArray:
+    """numpy record array (1-D) as named parallel columns: ar["field"], len(ar), ar[mask]."""
+
+    _pyvc_symbolic = True
+
+    def __init__(self, cols):
+        self.cols = {k: list(v) for k, v in cols.items()}
+
+    def _pyvc_len(self, it):
+        return len(next(iter(self.cols.values()))) if self.cols else 0
+
+    def _pyvc_getitem(self, it, idx):
+        if isinstance(idx, str):
+            if idx not in self.cols:
+                raise PyRaise(ValueError, (f"no field of name {idx}",))
+            return SArrayLite(self.cols[idx])
+        if isinstance(idx, SArrayLite):
+            n = self._pyvc_len(it)
+            if len(idx.vals) != n:
+                raise PyRaise(IndexError, ("boolean index did not match",))
+            keep = [k for k, m in enumerate(idx.vals) if it.decide(m, "recarray-mask")]
+            return SRecArray({c: [v[k] for k in keep] for c, v in self.cols.items()})
+        if isinstance(idx, int):
+            k = it.norm_index(idx, self._pyvc_len(it))
+            return tuple(v[k] for v in self.cols.values())
+        raise Undecided("record array subscript")
+
+    def _pyvc_deepcopy(self, rec):
+        return SRecArray({c: [rec(x) for x in v] for c, v in self.cols.items()})
+
+    def __repr__(self):
+        return f"SRecArray({self.cols})"
+
+
+class SymSet(list):
+    """A set of symbolic values of static size: one representative per equality class, found by forking on the
+    pairwise equalities (so every path has concrete membership)."""
+
+    _pyvc_symbolic = True
+
+    @staticmethod
+    def build(it, items):
+        out = SymSet()
+        for x in items:
+            dup = False
+            for y in out:
+                if it.ctx.decide(it.truthy(it.equals(x, y)), "set-dedupe"):
+                    dup = True
+                    break
+            if not dup:
+                out.append(x)
+        return out
+
+    def _pyvc_binop(self, it, op, other, swapped):
+        if isinstance(op, ast.BitOr) and isinstance(other, (SymSet, set, frozenset)):
+            a, b = (list(other), list(self)) if swapped else (list(self), list(other))
+            return SymSet.build(it, a + b)
+        return NotImplemented
+
+    def _pyvc_contains(self, it, item):
+        return lib._disj([it.truthy(it.equals(x, item)) for x in self])
+
+
 class TableTheory:
     """Axiom schemas over the indices of abstract tables, instantiated on demand at every index term the
     code or the specification touches (sound: only instances of the assumed invariants are added)."""
